@@ -18,7 +18,8 @@ def gen(rng, depth=0, maxdepth=4, kinds=None):
     if r < 0.14:
         return rng.choice([True, False])
     if r < 0.28:
-        return ("n", rng.choice([b"0", b"1", b"-2", b"1.5", b"1e3", b"18446744073709551615", b"-9223372036854775808", b"0.25", str(rng.randrange(-1000, 1000)).encode()]))
+        return ("n", rng.choice([b"0", b"1", b"-2", b"1.5", b"1e3", b"18446744073709551615", b"-9223372036854775808", b"0.25", b"1E5", b"2.5E-3", b"6.02E+23", b"-1E+2",
+                                  str(rng.randrange(-1000, 1000)).encode()]))
     if r < 0.40:
         return ("s", rng.choice([b"", b"x", b"hello", b"a\\nb", b"]}\\\"{[", b"\\u00e9", b"s" * 33, b","]))
     if r < 0.55:
